@@ -11,7 +11,7 @@ GATE-10 the fields the visited-set key compares beyond those the expansion uses 
 PROV-1  the amount by which group teardown lowers a member's count derives from that member's traced count
 """
 from interp import DEAD, Engine, counter_read, iter_table
-from expr import show, mentions, is_const, mk_field, mk_deref, mk_ref, table_of, box_part, children
+from expr import is_pop_call, show, mentions, is_const, mk_field, mk_deref, mk_ref, table_of, box_part, children
 from rules_ts import add, rem, sub, is_elem_box
 
 LINK = "cactusref::link::Link"
@@ -484,7 +484,7 @@ class Verdict:
                 st2 = rem(st, lambda f: f[0] in ("vd_iter", "vd_passed", "vd_loop", "vd_broken") and f[1] == M and f[2] == N)
                 if started and not broken:
                     self.verdict_sites.add(b)
-                    eng.obl("GATE-6", "verdict-loop", b)
+                    eng.obl("GATE-6", "verdict:loop", b)
                     return add(st2, ("verdict", M), ("anyres", M, True))
                 return st2
         return None
@@ -518,10 +518,10 @@ class Verdict:
         elif op == "Le":
             ext = not truth
         else:
-            eng.obl("GATE-6", "verdict-loop", b)
+            eng.obl("GATE-6", "verdict:loop", b)
             eng.violate("GATE-6", "verdict-predicate", "the orphan test compares a member's strong count with its traced count using `%s`; the group is orphaned iff no member has strong > traced" % op, b, st)
             return add(st, ("vd_broken", M, N))
-        eng.obl("GATE-6", "verdict-loop", b)
+        eng.obl("GATE-6", "verdict:loop", b)
         st = rem(st, lambda f: f == ("vd_iter", M, N))
         if ext:
             return add(st, ("verdict_checked", M), ("vd_loop", M, N), ("anyres", M, False))
@@ -739,6 +739,54 @@ def cursor_discipline(fn, b):
     return None
 
 
+def targets_only(kind):
+    """All links of this (possibly multi-valued) kind are targets owned by the expanded node: Forward / Loopback."""
+    return kind is not None and set(kind) <= {"0", "2"}
+
+
+def adopters_only(kind):
+    return kind is not None and set(kind) == {"1"}
+
+
+def kind_name(kind):
+    if kind is None:
+        return "any"
+    return "/".join(KIND_NAMES.get(k, k) for k in kind) if len(kind) > 1 else KIND_NAMES.get(kind, "any")
+
+
+def elem_shape(tys):
+    """How the payload of `next()` names the link and its count, from the type of the Option it returns:
+    returns (link accessor, count accessor) as functions of the payload expression E."""
+    t = tys.replace(" ", "")
+    m = t[t.index("Option<") + 7:-1] if "Option<" in t else t
+    def ref(x):
+        return x.startswith("&")
+    if m.startswith("("):
+        inner = m[1:-1]
+        # split at top-level comma
+        depth_ = 0
+        cut = None
+        for i, ch in enumerate(inner):
+            if ch in "<(":
+                depth_ += 1
+            elif ch in ">)":
+                depth_ -= 1
+            elif ch == "," and depth_ == 0:
+                cut = i
+                break
+        if cut is None:
+            return None
+        a, b_ = inner[:cut], inner[cut + 1:]
+        if "Link<" not in a:
+            return None
+        la = (lambda E: mk_deref(mk_field(E, "0", ""))) if ref(a) else (lambda E: mk_field(E, "0", ""))
+        ca = (lambda E: mk_deref(mk_field(E, "1", ""))) if ref(b_) else (lambda E: mk_field(E, "1", ""))
+        return la, ca
+    if "Link<" in m:
+        return ((lambda E: mk_deref(E)) if ref(m) else (lambda E: E)), None
+    return None
+
+
 class Trace:
     """GATE-7..10 on the worklist-driven trace."""
     id = "TRACE"
@@ -755,6 +803,11 @@ class Trace:
         self.reg_kinds = set()         # kinds for which a registration site was seen (whole run)
         self.any_expansion = False
         self.cursor_sites = {}         # get-site -> None (discipline holds) | reason
+        self.elem_info = {}            # payload expr -> (link expr, count expr | None) for elements of adapted passes
+        self.filtered_elems = set()
+        self.forward_pushed = False
+        self.forward_regs = False
+        self.two_phase = False
 
     # fields of Link that its Hash / PartialEq read
     def key_fields(self):
@@ -805,11 +858,22 @@ class Trace:
                     "/".join(KIND_NAMES.get(k, k) for k in sorted(kinds)) if kinds else "unknown", KIND_NAMES.get(initv[0], "?") if initv else "?"), ev.b, st)
             if kinds is not None and "0" in kinds:
                 self.forward_extended = True
+                self.forward_pushed = True
             return None
         if ev.op == "push" and len(ev.args) >= 2:
             W = mk_deref(ev.args[0])
             # is W a worklist (popped somewhere on this path)?
             if not any(f[0] == "popped" and f[1] == W for f in st.flags):
+                # a push before the crawl starts seeds the worklist (`frontier.push_back(root)` instead of `vec![root]`)
+                first = ev.args[1]
+                if first[0] == "agg" and first[2] == LINK and not any(f[0] == "wl_seed" and f[1] == W for f in st.flags):
+                    fl = []
+                    for k, fv in first[5]:
+                        if fv[0] == "agg":
+                            fl.append(("wl_seed", W, k, str(fv[4])))
+                        elif k == "ptr":
+                            fl.append(("wl_seedptr", W, fv))
+                    return add(st, *fl) if fl else None
                 return None
             v = ev.args[1]
             self.pushes.add(ev.b)
@@ -838,6 +902,9 @@ class Trace:
                     eng.violate("GATE-10", "worklist-key-not-canonical:%s" % k,
                                 "the visited set de-duplicates on Link.%s as well as the pointer, but the expansion only uses the pointer; a link with %s = %s enters the worklist here (initial element: %s), so one object can be expanded once per %s value and its table entries are counted more than once" % (
                                     k, k, KIND_NAMES.get(kv, "unknown") if kv is not None else "any value", KIND_NAMES.get(initv[0], initv[0]) if initv else "?", k), ev.b, st)
+            for f in st.flags:
+                if f[0] == "loopk" and f[2] and "0" in f[2] and mentions(v, lambda x, n=f[1]: x[0] == "call" and x[1] == n):
+                    self.forward_pushed = True
             eo = elem_of(v)
             if eo is not None:
                 return add(st, ("pushed", eo[0]))
@@ -862,7 +929,7 @@ class Trace:
 
     def on_variant(self, eng, st, inner, v, b):
         # result of Vec::pop known to be Some: a node is about to be processed
-        if inner[0] == "call" and inner[2].endswith("::pop") and v == "1":
+        if inner[0] == "call" and is_pop_call(inner[2]) and v == "1":
             W = mk_deref(inner[3][0])
             P = mk_field(("variant", inner, "Some", 1), "0", "")
             fl = [("popped", W, P)]
@@ -881,10 +948,10 @@ class Trace:
                     pend = [g for g in st.flags if g[0] == "elem_pending" and g[1] == E]
                     st2 = rem(st, lambda g: g == f or g in pend)
                     slot = mk_field(("variant", inner, "Some", 1), "0", "")
-                    eng.obl("GATE-7", "registration:%s" % KIND_NAMES.get(kind, "any"), b)
-                    eng.obl("GATE-8", "registration:%s" % KIND_NAMES.get(kind, "any"), b)
+                    eng.obl("GATE-7", "registration:%s" % kind_name(kind), b)
+                    eng.obl("GATE-8", "registration:%s" % kind_name(kind), b)
                     fl = [("elem_reg", E, S, f[4], kind, None)]
-                    if kind != "1":
+                    if not adopters_only(kind):
                         fl.append(("elem_acc_pending", E, slot))
                     return add(st2, *fl)
         # `while let Some(&node) = queue.get(cursor)`: an append-only queue read through a cursor
@@ -904,6 +971,16 @@ class Trace:
                     if f[0] == "wl_seedptr" and sub(W, f[1]):
                         fl.append(("wl_initptr", W, f[2]))
                 return add(st, *fl)
+        # second phase of a two-phase trace: the members found by the crawl (the visited set) are walked, each once
+        if inner[0] == "call" and inner[2] == "core::iter::Iterator::next" and v == "1":
+            src = iter_source(inner[3][0])
+            if src is not None and src[0] == "map" and not src[-1] and ("vis_set", src[1]) in st.flags:
+                dst = eng.fn.blocks[inner[1]]["term"]["dst"]
+                shape = elem_shape(eng.fn.locals[dst["l"]]["ty"]["s"]) if not dst["p"] else None
+                if shape is not None and shape[1] is None:
+                    P = shape[0](mk_field(("variant", inner, "Some", 1), "0", ""))
+                    self.two_phase = True
+                    return add(st, ("popped", src[1], P), ("vis_guard_ok", P), ("phase2", P))
         # an element of an expanded node's table
         if inner[0] == "call" and inner[2] == "core::iter::Iterator::next" and v == "1":
             src = iter_source(inner[3][0])
@@ -917,7 +994,15 @@ class Trace:
                             eng.violate("GATE-7", "table-iteration-restricted:%s" % problem, "the trace walks an expanded node's link table through `%s` with a condition that is not a pure test of the link kind: entries that are skipped are invisible to the orphan test" % problem, b, st)
                             kinds = frozenset()
                         self.filtered_pass = True
-                        return add(st, ("loopk", inner[1], kinds))
+                        fl = [("loopk", inner[1], kinds)]
+                        E = mk_field(("variant", inner, "Some", 1), "0", "")
+                        dst = eng.fn.blocks[inner[1]]["term"]["dst"]
+                        shape = elem_shape(eng.fn.locals[dst["l"]]["ty"]["s"]) if not dst["p"] else None
+                        if shape is not None and kinds:
+                            self.elem_info[E] = (shape[0](E), shape[1](E) if shape[1] else None)
+                            self.filtered_elems.add(E)
+                            fl.append(("elem_pending", E, b, "filtered", "".join(sorted(kinds))))
+                        return add(st, *fl)
                     E = mk_field(("variant", inner, "Some", 1), "0", "")
                     return add(st, ("elem_pending", E, b))
         return None
@@ -934,7 +1019,7 @@ class Trace:
         if ev.op == "insert" and ev.container.endswith("HashSet") and len(ev.args) >= 2:
             for f in st.flags:
                 if f[0] == "popped" and ev.args[1] == f[2]:
-                    return add(st, ("vis_ins", S, f[2]))
+                    return add(st, ("vis_ins", S, f[2]), ("vis_set", S))
             if not any(f[0] == "popped" for f in st.flags):
                 # before the crawl starts: the seed is marked as seen (cursor-queue form)
                 return add(st, ("seen_seed", S, ev.args[1]))
@@ -957,18 +1042,18 @@ class Trace:
                 st = rem(st, lambda g: g == f)
                 st = add(st, ("elem_reg", E, S, target, kind, ev.res if ev.op == "entry" else None))
                 self.elem_arms.add((ev.b, kind))
-                eng.obl("GATE-7", "registration:%s" % KIND_NAMES.get(kind, "any"), ev.b)
-                eng.obl("GATE-8", "registration:%s" % KIND_NAMES.get(kind, "any"), ev.b)
+                eng.obl("GATE-7", "registration:%s" % kind_name(kind), ev.b)
+                eng.obl("GATE-8", "registration:%s" % kind_name(kind), ev.b)
                 if ev.op == "insert":
                     absent = ("elem_absent", E, S) in st.flags
                     val = ev.args[2] if len(ev.args) > 2 else None
-                    cnt = mk_deref(mk_field(E, "1", ""))
+                    cnt = self._cnt(E)
                     if not absent:
                         # plain insert overwrites what other owners contributed (or resets an adopter that is also a target)
                         eng.violate("GATE-8", "overwrite-instead-of-accumulate", "the trace stores a count with `insert` without knowing the key is new, overwriting what other owners contributed", ev.b, st)
-                    elif kind in ("0", "2") and val != cnt:
+                    elif targets_only(kind) and val != cnt:
                         eng.violate("GATE-8", "or-insert-not-count", "a forward/loopback target first seen by the trace is not initialised with the entry's count", ev.b, st)
-                    elif kind == "1" and not is_const(val, 0):
+                    elif adopters_only(kind) and not is_const(val, 0):
                         eng.violate("GATE-8", "adopter-credited", "the trace credits a positive count to an adopter (backward link)", ev.b, st)
                     elif kind is None and not (is_const(val, 0)):
                         eng.violate("GATE-8", "overwrite-instead-of-accumulate", "the trace initialises an entry of unknown kind with a count", ev.b, st)
@@ -980,7 +1065,7 @@ class Trace:
             for f in st.flags:
                 if f[0] == "elem_reg" and f[5] is not None and (ent == f[5] or sub(ent, f[5])):
                     E, kind = f[1], f[4]
-                    cnt = mk_deref(mk_field(E, "1", ""))
+                    cnt = self._cnt(E)
                     if ev.op == "and_modify":
                         cl = self.closures.run(ev.args[1], params={2: ("param", 2)})
                         ok = False
@@ -989,15 +1074,15 @@ class Trace:
                             old = mk_deref(("param", 2))
                             if s.place == old and s.value[0] == "bin" and s.value[1] in ("Add", "AddUnchecked") and ((s.value[2] == old and s.value[3] == cnt) or (s.value[3] == old and s.value[2] == cnt)):
                                 ok = True
-                        if kind in ("0", "2") and not ok:
+                        if targets_only(kind) and not ok:
                             eng.violate("GATE-8", "and-modify-not-accumulating", "the trace's update of an existing forward/loopback count is not `old + entry count`", ev.b, st)
-                        if kind == "1" and cl is not None and cl["stores"]:
+                        if adopters_only(kind) and cl is not None and cl["stores"]:
                             eng.violate("GATE-8", "adopter-credited", "the trace credits a positive count to an adopter (backward link)", ev.b, st)
                         return add(st, ("elem_mod", E))
                     if ev.op == "or_insert":
                         init = ev.args[1] if len(ev.args) > 1 else None
                         modded = ("elem_mod", E) in st.flags
-                        if kind in ("0", "2"):
+                        if targets_only(kind):
                             if modded and init != cnt:
                                 eng.violate("GATE-8", "or-insert-not-count", "a forward/loopback target first seen by the trace is not initialised with the entry's count", ev.b, st)
                             if not modded and not is_const(init, 0):
@@ -1005,13 +1090,19 @@ class Trace:
                                 eng.violate("GATE-8", "overwrite-instead-of-accumulate", "the trace initialises a forward/loopback count without accumulating into an existing one", ev.b, st)
                             if not modded and is_const(init, 0):
                                 return add(st, ("elem_acc_pending", E, ev.res))
-                        if kind == "1" and init is not None and not is_const(init, 0):
+                        if adopters_only(kind) and init is not None and not is_const(init, 0):
                             eng.violate("GATE-8", "adopter-credited", "the trace credits a positive count to an adopter (backward link)", ev.b, st)
-                    if ev.op == "or_default" and kind in ("0", "2"):
+                    if ev.op == "or_default" and targets_only(kind):
                         if ("elem_mod", E) not in st.flags:
                             return add(st, ("elem_acc_pending", E, ev.res))
                     return None
         return None
+
+    def _lk(self, E):
+        return self.elem_info[E][0] if E in self.elem_info else mk_deref(mk_field(E, "0", ""))
+
+    def _cnt(self, E):
+        return self.elem_info[E][1] if E in self.elem_info else mk_deref(mk_field(E, "1", ""))
 
     def _match(self, st, key):
         """Pending table elements that `key` (a Link expression or a reference to one) denotes."""
@@ -1019,7 +1110,7 @@ class Trace:
         for f in list(st.flags):
             if f[0] == "elem_pending":
                 E = f[1]
-                lk = mk_deref(mk_field(E, "0", ""))
+                lk = self._lk(E)
                 target = None
                 k2 = key[1] if key[0] == "ref" else key
                 if key == lk or mk_deref(key) == lk or k2 == lk:
@@ -1028,7 +1119,10 @@ class Trace:
                     target = "as:" + str(dict(k2[5])["kind"][4]) if dict(k2[5]).get("kind", ("",))[0] == "agg" else "as:?"
                 if target is None:
                     continue
-                out.append((f, E, target, st.variant(mk_field(lk, "kind", LINK))))
+                kv = st.variant(mk_field(lk, "kind", LINK))
+                if kv is None and len(f) > 4:
+                    kv = f[4]
+                out.append((f, E, target, kv))
         return out
 
     def _note_registration(self, eng, st, key):
@@ -1059,6 +1153,11 @@ class Trace:
         self.reg_kinds |= set(ALL_KINDS)
 
     def finish(self, eng):
+        if (self.filtered_pass or self.two_phase) and self.any_expansion and self.forward_regs and not self.forward_pushed:
+            key = ("GATE-8", "forward-target-not-followed")
+            if key not in eng.violations:
+                eng.violations[key] = {"rule": "GATE-8", "key": key[1], "msg": "forward targets are registered by the trace's passes but no pass queues them: objects behind them are not traced",
+                                       "where": eng.where(0), "entry": eng.name, "path": []}
         if self.filtered_pass and self.any_expansion:
             missing = sorted(ALL_KINDS - self.reg_kinds)
             for k in missing:
@@ -1104,7 +1203,7 @@ class Trace:
             # `if !visited.insert(node) { continue }`: insert returned true <=> the node was not visited before
             for f in st.flags:
                 if f[0] == "popped" and c[3][1] == f[2]:
-                    return add(st, ("vis_guard_ok", f[2]))
+                    return add(st, ("vis_guard_ok", f[2]), ("vis_set", mk_deref(c[3][0])))
             # discovery-time marking: `if seen.insert(key(link)) { queue.push(link) }`
             return add(st, ("seen_new", mk_deref(c[3][0]), c[3][1]))
         if c[2].startswith("hashbrown::HashSet") and c[2].endswith("::insert") and len(c[3]) >= 2 and not truth:
@@ -1121,9 +1220,9 @@ class Trace:
                     return add(st, ("assumed_false", c), ("elem_absent", E, S))
                 # already in the map: nothing to add for an adopter; a target still needs its count accumulated
                 st = rem(st, lambda g: g == f)
-                eng.obl("GATE-7", "registration:%s" % KIND_NAMES.get(kind, "any"), b)
+                eng.obl("GATE-7", "registration:%s" % kind_name(kind), b)
                 fl = [("elem_reg", E, S, target, kind, None)]
-                if kind != "1":
+                if not adopters_only(kind):
                     fl.append(("elem_acc_pending", E, None))
                 eo = elem_of(c[3][1])
                 if eo is not None:
@@ -1143,12 +1242,18 @@ class Trace:
         """Before facts about the previous result of `site` are dropped: per-iteration obligations."""
         for f in st.flags:
             if f[0] == "elem_pending" and _is_next_site(f[1], site):
+                if f[1] in self.filtered_elems:
+                    continue    # a pass may skip registration (e.g. it only queues); kind coverage is checked over the whole run
                 lk = mk_deref(mk_field(f[1], "0", ""))
                 kind = st.variant(mk_field(lk, "kind", LINK))
-                eng.violate("GATE-7", "entry-kind-ignored:%s" % KIND_NAMES.get(kind, "any"), "an entry of an expanded node's link table (kind %s) is not registered in the trace's result map, so the verdict cannot see that object" % KIND_NAMES.get(kind, "unknown"), f[2], st)
+                eng.violate("GATE-7", "entry-kind-ignored:%s" % kind_name(kind), "an entry of an expanded node's link table (kind %s) is not registered in the trace's result map, so the verdict cannot see that object" % KIND_NAMES.get(kind, "unknown"), f[2], st)
             if f[0] == "elem_reg" and _is_next_site(f[1], site):
                 E, kind = f[1], f[4]
-                if kind == "0" and ("pushed", E) not in st.flags:
+                if targets_only(kind) and "0" in kind:
+                    self.forward_regs = True
+                if ("pushed", E) in st.flags:
+                    self.forward_pushed = True
+                if kind == "0" and ("pushed", E) not in st.flags and E not in self.filtered_elems and not any(g[0] == "phase2" for g in st.flags):
                     eng.violate("GATE-8", "forward-target-not-followed", "a forward link's target is registered but never pushed to the worklist, so objects behind it are not traced", site, st)
             if f[0] == "elem_acc_pending" and _is_next_site(f[1], site):
                 eng.violate("GATE-8", "overwrite-instead-of-accumulate", "a forward/loopback entry is created at 0/default but the entry's count is never added to it", site, st)
@@ -1158,7 +1263,7 @@ class Trace:
         if ev.kind == "store":
             for f in st.flags:
                 if f[0] == "elem_acc_pending" and f[2] is not None and ev.place == mk_deref(f[2]):
-                    cnt = mk_deref(mk_field(f[1], "1", ""))
+                    cnt = self._cnt(f[1])
                     v = ev.value
                     old = mk_deref(f[2])
                     if v[0] == "bin" and v[1] in ("Add", "AddUnchecked") and ((v[2] == old and v[3] == cnt) or (v[3] == old and v[2] == cnt)):
@@ -1307,7 +1412,7 @@ class GroupPhases:
         self.sites = {}
 
     def on_variant(self, eng, st, inner, v, b):
-        if inner[0] == "call" and inner[2].endswith("::pop") and v == "0" and inner[3]:
+        if inner[0] == "call" and is_pop_call(inner[2]) and v == "0" and inner[3]:
             # the container that held the group's contents has been drained
             C = mk_deref(inner[3][0])
             hit = [f for f in st.flags if f[0] == "holds_members" and f[1] == C]
@@ -1377,7 +1482,7 @@ class GroupPhases:
                 M = f[2]
                 eng.obl("TS-2", "group-destroy-order", ev.b)
                 self._check_destroy(eng, ev, st, M)
-                if v != f[1] and mentions(v, lambda x: x[0] == "call" and (x[2].endswith("::pop") or x[2] == "core::iter::Iterator::next")):
+                if v != f[1] and mentions(v, lambda x: x[0] == "call" and (is_pop_call(x[2]) or x[2] == "core::iter::Iterator::next")):
                     # one element taken out of the container: the rest is still waiting
                     st = add(st, ("member_destroyed", M))
                     out = st
